@@ -33,6 +33,8 @@ def run(F, rep, tier="quick", extra=None, only=None):
     check_matrix_algebra(F, rep)
     check_adaptation(F, rep)
     check_neutrals(F, rep, S)
+    from . import aliasrule
+    aliasrule.check(F, rep, "C14", 2)
     return {"level": "other"}
 
 
